@@ -155,6 +155,7 @@ type Outcome struct {
 	Elapsed time.Duration
 	Retries int
 	Dead    []int64 // channel workers that stopped during the run
+	Racy    string  // the run took a branch only the Go scheduler decides: traces are not compared
 	// Workers: set when the channels the manager started workers for are not the ones that were
 	// loaded at the start or met with a known access hash
 	Workers string
@@ -330,6 +331,19 @@ func (e *Env) apply(a Action) {
 		before := e.apiCalls()
 		n, chans := updates.VerifC02FireGapTimers(e.M)
 		want := n + len(chans)
+		if n > 0 {
+			// a main-loop timer and a channel timer whose difference forwards updates to the main loop:
+			// which of the two the main loop sees first is the scheduler's choice
+			w.mu.Lock()
+			for _, c := range chans {
+				if len(w.Extra["c"+strconv.FormatInt(c, 10)]) > 0 {
+					e.mu.Lock()
+					e.Racy = "a main-loop gap timer and a channel gap timer whose difference forwards updates fired together"
+					e.mu.Unlock()
+				}
+			}
+			w.mu.Unlock()
+		}
 		deadline := time.Now().Add(20 * time.Second)
 		for want > 0 && e.apiCalls() < before+want && time.Now().Before(deadline) {
 			time.Sleep(50 * time.Microsecond)
@@ -418,6 +432,9 @@ func (s Scenario) Run(from *Snapshot, emitAll bool, actions []Action, known map[
 	out.Trace, out.Snaps = e.Trace()
 	e.Stop()
 	out.Err, out.Panics, out.Retries = e.Err, e.Panics(), e.Retries
+	e.mu.Lock()
+	out.Racy = e.Racy
+	e.mu.Unlock()
 	for c := range e.Dead {
 		out.Dead = append(out.Dead, c)
 	}
